@@ -446,6 +446,15 @@ class Gen:
             parts.append('//@item %s' % tpath)
             it_text = self.item_text(tpath)
             parts.append(it_text)
+            me = re.match(r'pub enum\s+(\w+)\s*\{', it_text)
+            if me:
+                for vm in re.finditer(r'(\w+)\s*\(([^)]*)\)', it_text[me.end():]):
+                    for k, ty in enumerate(x.strip() for x in vm.group(2).split(',')):
+                        if ty == 'f64':
+                            nm = 'ax_typed_%s_%s_%d' % (me.group(1), vm.group(1), k)
+                            parts.append('#[verifier::external_body]\npub broadcast proof fn %s(s: %s) ensures typed(#[trigger] s->%s_%d) {}'
+                                         % (nm, me.group(1), vm.group(1), k))
+                            typed_ax.append(nm)
             ms = re.match(r'pub struct\s+(\w+)\s*\{', it_text)
             if ms:
                 for fm in re.finditer(r'pub\s+(\w+)\s*:\s*f64\s*,', it_text):
@@ -453,6 +462,8 @@ class Gen:
                     parts.append('#[verifier::external_body]\npub broadcast proof fn %s(s: %s) ensures typed(#[trigger] s.%s) {}'
                                  % (nm, ms.group(1), fm.group(1)))
                     typed_ax.append(nm)
+        for tpath in unit.types:
+            pass
         self._typed = False
         if typed_ax and not unit.consts:
             parts.append('pub broadcast group typed_fields { %s }' % ', '.join(typed_ax))
